@@ -131,9 +131,10 @@ def handle (s : St) (line : String) : St :=
     let e : Entry := { hash := strBytes cidS, logId := strBytes logId, next := s.hs (parseList nx),
                        refs := s.hs (parseList rf), clock := { id := strBytes clk, time := toInt! time } }
     { s with uni := s.uni.insert a e, store := s.store ++ [e] }
-  | ["N", r, logId, clk, sk, deny] =>
+  | "N" :: r :: logId :: clk :: sk :: deny :: t0L =>
+    let t0 := match t0L with | t :: _ => toInt! t | [] => 0
     let l : Log := { id := strBytes logId, entries := [], heads := [], nextIdx := [],
-                     clock := { id := strBytes clk, time := 0 }, sortFn := parseSort sk }
+                     clock := { id := strBytes clk, time := t0 }, sortFn := parseSort sk }
     s.setRep r.toNat! { log := l, writer := strBytes clk, deny := (parseList deny).map strBytes }
   | ["A", r, pc, a] =>
     let s := { s with lastOp := "append" }
